@@ -3,6 +3,7 @@ package props
 import (
 	"bytes"
 	"fmt"
+	"github.com/IBM/fluent-forward-go/fluent/client"
 	"io"
 	"math/rand"
 	"strings"
@@ -293,6 +294,7 @@ func C09(c *core.Ctx) {
 	c09BigBatch(c)
 	c09SendBuf(c)
 	c09ws(c)
+	c09PackedHelpers(c)
 }
 
 // c09SendBuf: histories of Sends of one goroutine on one client (no acks) -- messages that encode, and
@@ -390,6 +392,70 @@ func c09BigBatch(c *core.Ctx) {
 			}
 			if !bytes.Equal(wire, good.enc) {
 				c.Violation("judge-go", "c09-unencodable-torn", fmt.Sprintf("after a batch of %d entries that failed to encode the connection holds %d bytes that are not the next message's %d", n+1, len(wire), len(good.enc)), replay)
+			}
+		}
+	}
+}
+
+// c09PackedHelpers: the helpers that pack an entry list before they send (SendPacked, SendCompressed, SendForward):
+// a list holding a value msgpack cannot represent -- after any amount of encodable entries -- is reported as an
+// error with nothing written, and whatever helper is used next puts exactly its own entries on the wire.
+func c09PackedHelpers(c *core.Ctx) {
+	good := func(n int, mark string) protocol.EntryList {
+		el := make(protocol.EntryList, n)
+		for i := range el {
+			el[i] = protocol.EntryExt{Timestamp: protocol.EventTime{Time: time.Unix(int64(1000+i), 7)}, Record: map[string]interface{}{"m": fmt.Sprintf("%s-%d", mark, i)}}
+		}
+		return el
+	}
+	type helper struct {
+		name string
+		send func(cl *client.Client, el protocol.EntryList) error
+	}
+	helpers := []helper{
+		{"SendPacked", func(cl *client.Client, el protocol.EntryList) error { return cl.SendPacked("t", el) }},
+		{"SendCompressed", func(cl *client.Client, el protocol.EntryList) error { return cl.SendCompressed("t", el) }},
+		{"SendForward", func(cl *client.Client, el protocol.EntryList) error { return cl.SendForward("t", el) }},
+	}
+	for _, before := range []int{0, 1, 30, 200} {
+		for _, first := range helpers {
+			for _, second := range helpers {
+				cl, f := liveClient(false)
+				bad := append(good(before, "LEAKED-FROM-FAILED-LIST"), protocol.EntryExt{Timestamp: protocol.EventTime{Time: time.Unix(5, 0)}, Record: map[string]interface{}{"bad": make(chan int)}})
+				err1 := first.send(cl, bad)
+				wrote1 := len(f.Conns[0].Accepted())
+				want := good(3, "second")
+				err2 := second.send(cl, want)
+				wire := f.Conns[0].Accepted()[wrote1:]
+				c.Eval()
+				c.Hist("entry-list helper after a failed entry-list helper")
+				replay := map[string]interface{}{"first": first.name, "second": second.name, "encodable_entries_before_the_bad_one": before, "wire": trunc(hx(wire), 300)}
+				if err1 == nil || wrote1 != 0 {
+					c.Violation("judge-go", "c09-unencodable-leak", fmt.Sprintf("%s of a list with an unencodable record returned %v and wrote %d bytes", first.name, err1, wrote1), replay)
+				}
+				var got protocol.EntryList
+				ok := err2 == nil
+				if ok {
+					if second.name == "SendForward" {
+						var fm protocol.ForwardMessage
+						_, e := fm.UnmarshalMsg(wire)
+						ok, got = e == nil, fm.Entries
+					} else {
+						var pm protocol.PackedForwardMessage
+						_, e := pm.UnmarshalMsg(wire)
+						st := pm.EventStream
+						if e == nil && second.name == "SendCompressed" {
+							st, e = gunzipOne(st)
+						}
+						if e == nil {
+							_, e = got.UnmarshalPacked(st)
+						}
+						ok = e == nil
+					}
+				}
+				if !ok || !got.Equal(want) {
+					c.Violation("judge-go", "c09-unencodable-leak", fmt.Sprintf("%s after a failed %s: the wire does not carry exactly the entries of the second call (err %v, %d entries decoded)", second.name, first.name, err2, len(got)), replay)
+				}
 			}
 		}
 	}
